@@ -187,6 +187,63 @@ static void sp_case(uint64_t idx, void *ctx)
     free(hx); free(hy);
 }
 
+/* ---- digest twins: consecutive calls whose arguments differ but agree in length and in one of the library's own string digests (what a result remembered
+ * between calls would be keyed on).  The twins are found by a complete search of the versions a.b.c with a,b,c < 120 for each digest function. */
+typedef spif_uint32_t (*dig_fn)(spif_uint8_t *, spif_uint32_t, spif_uint32_t);
+static const struct { const char *name; dig_fn fn; } DIG[] = { { "spifhash_fnv", spifhash_fnv }, { "spifhash_one_at_a_time", spifhash_one_at_a_time }, { "spifhash_rotating", spifhash_rotating }, { "spifhash_jenkins", spifhash_jenkins } };
+#define NDIG 4
+#define TW_PER 24
+#define TW_R 120
+static struct { int x[3], y[3]; } TWIN[NDIG][TW_PER]; static int NTWIN[NDIG];
+static void tw_find(void)
+{
+    size_t cap = 1u << 22; uint32_t *slot = malloc(cap * sizeof *slot);        /* open addressing on (digest, length); value = index + 1 */
+    for (int d = 0; d < NDIG; d++) {
+        memset(slot, 0, cap * sizeof *slot); NTWIN[d] = 0;
+        for (uint32_t i = 0; i < (uint32_t) TW_R * TW_R * TW_R && NTWIN[d] < TW_PER; i++) {
+            char t[16]; int a = (int) (i / (TW_R * TW_R)), b = (int) (i / TW_R % TW_R), c = (int) (i % TW_R); int l = snprintf(t, sizeof t, "%d.%d.%d", a, b, c);
+            uint32_t h = DIG[d].fn((spif_uint8_t *) t, (spif_uint32_t) l, 0); size_t k = ((size_t) h * 2654435761u + (size_t) l) & (cap - 1);
+            for (;; k = (k + 1) & (cap - 1)) {
+                if (!slot[k]) { slot[k] = i + 1; break; }
+                uint32_t j = slot[k] - 1; char u[16]; int a2 = (int) (j / (TW_R * TW_R)), b2 = (int) (j / TW_R % TW_R), c2 = (int) (j % TW_R); int l2 = snprintf(u, sizeof u, "%d.%d.%d", a2, b2, c2);
+                if (l2 == l && DIG[d].fn((spif_uint8_t *) u, (spif_uint32_t) l2, 0) == h) { int n = NTWIN[d]++; TWIN[d][n].x[0] = a2; TWIN[d][n].x[1] = b2; TWIN[d][n].x[2] = c2; TWIN[d][n].y[0] = a; TWIN[d][n].y[1] = b; TWIN[d][n].y[2] = c; break; }
+            }
+        }
+    }
+    free(slot);
+}
+static int tricmp(const int *p, const int *q) { for (int i = 0; i < 3; i++) if (p[i] != q[i]) return p[i] < q[i] ? -1 : 1; return 0; }
+static void tw_desc(uint64_t idx, void *ctx, char *b, size_t n)
+{
+    int d = (int) (idx / TW_PER), k = (int) (idx % TW_PER); (void) ctx;
+    if (k >= NTWIN[d]) { snprintf(b, n, "digest twins under %s: fewer than %d pairs among the versions a.b.c below %d", DIG[d].name, k + 1, TW_R); return; }
+    snprintf(b, n, "\"%d.%d.%d\" and \"%d.%d.%d\" (same length, same %s digest) compared one after the other with \"10.0.0\", \"50.50.50\" and with each other", TWIN[d][k].x[0], TWIN[d][k].x[1], TWIN[d][k].x[2], TWIN[d][k].y[0], TWIN[d][k].y[1], TWIN[d][k].y[2], DIG[d].name);
+}
+static void tw_case(uint64_t idx, void *ctx)
+{
+    int d = (int) (idx / TW_PER), k = (int) (idx % TW_PER); (void) ctx;
+    if (k >= NTWIN[d]) return;
+    const char *shape = "consecutive calls on digest twins"; mc_set_shape(shape);
+    static const int REFS[2][3] = { { 10, 0, 0 }, { 50, 50, 50 } };
+    char tx[16], ty[16], tr[16]; snprintf(tx, sizeof tx, "%d.%d.%d", TWIN[d][k].x[0], TWIN[d][k].x[1], TWIN[d][k].x[2]); snprintf(ty, sizeof ty, "%d.%d.%d", TWIN[d][k].y[0], TWIN[d][k].y[1], TWIN[d][k].y[2]);
+    char *hx = mc_heapstr(tx), *hy = mc_heapstr(ty); uint64_t oc = 0;
+    for (int r = 0; r < 2; r++) {
+        snprintf(tr, sizeof tr, "%d.%d.%d", REFS[r][0], REFS[r][1], REFS[r][2]); char *hr = mc_heapstr(tr);
+        int e1 = tricmp(TWIN[d][k].x, REFS[r]), e2 = tricmp(TWIN[d][k].y, REFS[r]);
+        int g1 = call(hx, hr, 0xA5), g2 = call(hy, hr, 0xA5), g3 = call(hr, hy, 0xA5), g4 = call(hr, hx, 0xA5), g5 = call(hy, hr, 0xA5), g6 = call(hx, hr, 0xA5);
+        if (g1 != e1 || g6 != e1) FAIL("spiftool_version_compare", "model:ordering-law", shape, "cmp(\"%s\",\"%s\")=%d first and %d after its twin, numeric order gives %d", tx, tr, g1, g6, e1);
+        if (g2 != e2 || g5 != e2) FAIL("spiftool_version_compare", "model:depends-on-previous-call", shape, "cmp(\"%s\",\"%s\")=%d right after cmp(\"%s\",\"%s\") and %d later, numeric order gives %d", ty, tr, g2, tx, tr, g5, e2);
+        if (g3 != -e2 || g4 != -e1) FAIL("spiftool_version_compare", "model:antisymmetry", shape, "cmp(\"%s\",\"%s\")=%d and cmp(\"%s\",\"%s\")=%d, expected %d and %d", tr, ty, g3, tr, tx, g4, -e2, -e1);
+        oc = oc * 9 + (uint64_t) (g1 + 1) * 3 + (uint64_t) (g2 + 1);
+        free(hr);
+    }
+    { int e = tricmp(TWIN[d][k].x, TWIN[d][k].y); int g1 = call(hx, hy, 0xA5), g2 = call(hy, hx, 0xA5), g3 = call(hx, hx, 0xA5), g4 = call(hy, hy, 0xA5);
+      if (g1 != e || g2 != -e || g3 != 0 || g4 != 0) FAIL("spiftool_version_compare", "model:ordering-law", shape, "twins against each other: cmp(x,y)=%d cmp(y,x)=%d cmp(x,x)=%d cmp(y,y)=%d, numeric order gives %d", g1, g2, g3, g4, e); }
+    free(hx); free(hy);
+    mc_nontrivial();
+    mc_outcome(oc);
+}
+
 int main(int argc, char **argv)
 {
     mc_init("C17", argc, argv);
@@ -205,6 +262,8 @@ int main(int argc, char **argv)
         WF_COUNT = 3ULL * (uint64_t) (g_nn * g_nn * g_nn) * NWORD * 3;
         mc_e2_level("wellformed", g_nn, WF_COUNT * WF_COUNT, wf_case, wf_desc, NULL);
         mc_e2_level("number_spellings", NSPELL, (uint64_t) NFORM * NSPELL * NSPELL, sp_case, sp_desc, NULL);
+        tw_find();
+        mc_e2_level("digest_twins", TW_R, (uint64_t) NDIG * TW_PER, tw_case, tw_desc, NULL);
     }
     return mc_finish();
 }
